@@ -46,6 +46,8 @@ META = {
 HARNESS = ["c05_main.c"]
 PROP_MODULES = ["XzVerif.Props.C05", "XzVerif.Props.C03Container"]
 MODEL_APIS = {"sd", "sbd", "auto", "alone", "lzip"}
+# .lz footer fields that are compared with the actual values under EVERY flag set (LZMA_IGNORE_CHECK only skips the CRC32)
+LZ_SIZE_FIELDS = {"lz.dsize", "lz.msize"}
 NONPAYLOAD_XZ = {"hdr.magic", "hdr.flags", "hdr.crc32", "blk.hdr.size", "blk.hdr.flags", "blk.hdr.csize", "blk.hdr.usize",
                  "blk.hdr.filters", "blk.hdr.pad", "blk.hdr.crc32", "blk.pad", "blk.check", "idx.indicator", "idx.count",
                  "idx.records", "idx.pad", "idx.crc32", "ftr.crc32", "ftr.bsize", "ftr.flags", "ftr.magic", "spad"}
@@ -219,7 +221,7 @@ def api_configs(ctx, f, exhaustive):
         return cfg
     if f["fmt"] == "lzma":
         return [("alone", 0), ("auto", 0), ("auto", 8)]
-    return [("lzip", 0), ("lzip", 8), ("auto", 8), ("lzip", rng.choice((16, 24, 4, 12)))]
+    return [("lzip", 0), ("lzip", 8), ("auto", 8), ("lzip", 16), ("lzip", 24), ("auto", 24), ("lzip", rng.choice((4, 12, 20, 28)))]
 
 
 def plan_file(ctx, fi, f, exhaustive, n_edits):
@@ -291,11 +293,11 @@ def plan_crafted(ctx, files, fi, f):
     groups = ([("sd", 0), ("sd", 8), ("sbd", 0), ("auto", 8), ("sd", 16)], [("mt2", 8), ("mt4", 0)])
     ops = [[], []]
     descs = [[], []]
-    for (what, field, data) in L.crafted_variants(f, ctx.rng):
+    for (what, field, data, must_reject) in L.crafted_variants(f, ctx.rng):
         g = dict(f)
         g["data"] = data
         g["name"] = f["name"] + " [crafted: " + what + "]"
-        g["crafted"] = (what, field)
+        g["crafted"] = (what, field, must_reject)
         files.append(g)
         gi = len(files) - 1
         for k, cfgs in enumerate(groups):
@@ -324,7 +326,7 @@ def plan_padding(ctx, files, fi, f):
             g = dict(f)
             g["data"] = data
             g["name"] = f["name"] + " [" + what + "]"
-            g["crafted"] = (what, "spad")
+            g["crafted"] = (what, "spad", True)
             files.append(g)
             gi = len(files) - 1
             n = len(data)
@@ -447,7 +449,15 @@ def judge(f, desc, res):
         return "rejected-%d" % ret, None, None
     same = lambda want: res["outlen"] == want and res["lcp"] == want
     if kind == "w" and f.get("crafted"):
-        return "crafted-accepted", "a file with the non-payload field %s changed (%s) was accepted" % (f["crafted"][1], f["crafted"][0]), None
+        if f["crafted"][2]:
+            return "crafted-accepted", "a file with the non-payload field %s changed (%s) was accepted" % (f["crafted"][1], f["crafted"][0]), None
+        # a Block Flags / Filter Flags change can yield another valid header (e.g. a larger dictionary): same data required
+        want = total if concat else p1
+        if same(want):
+            return "crafted-valid-variant-same-data", None, None
+        if L.has_verified_check(f, api, flags):
+            return "crafted-accepted-different-data", "a file with %s changed (%s) was accepted with different output" % (f["crafted"][1], f["crafted"][0]), None
+        return "accepted-different-no-check", None, None
     if kind == "w":
         want = total if concat else p1
         if not same(want):
@@ -463,6 +473,10 @@ def judge(f, desc, res):
     # flips and edits
     want = total if concat else p1
     field = L.field_at(f["segs"], pos // 8 if kind == "f" else pos)
+    if kind == "f" and f["fmt"] == "lz" and pos // 8 < L.visible_end(f, api, flags) and (
+            field in LZ_SIZE_FIELDS or (field == "lz.crc32" and not (flags & L.IGNORE_CHECK))):
+        if not lz_trailing_rule_case(f, api, flags, kind, pos, res):
+            return "lz-footer-damage-accepted", "a bit flip in the .lz footer field %s was accepted (flags %d)" % (field, flags), None
     if same(want):
         if kind == "f" and f["fmt"] == "xz" and field in NONPAYLOAD_XZ and pos // 8 < L.visible_end(f, api, flags):
             exempt = field == "blk.check" and ((flags & L.IGNORE_CHECK) or not all(c in L.SUPPORTED_CHECKS for c in f["checks"]))
